@@ -31,7 +31,10 @@ N = {"quick": (8, 60), "thorough": (16, 1500)}  # shards, cases per shard
 
 def plan(tier, seed):
     ns, per = N[tier]
-    return [{"n": per} for _ in range(ns)]
+    shards = [{"n": per} for _ in range(ns)]
+    if tier == "thorough":
+        shards.append({"repo_tests": True, "n": 0, "allk": False})
+    return shards
 
 
 def bands(rng, f):
@@ -148,6 +151,11 @@ def judge(ctx, c, rng):
 
 
 def run_shard(ctx, shard):
+    if shard.get("repo_tests"):
+        from ..core import run_repo_tests_under_contracts
+        ms.install(ctx)
+        run_repo_tests_under_contracts(ctx)
+        return
     rng = ctx.rng()
     for i in range(shard["n"]):
         c = make_case(rng)
